@@ -258,4 +258,52 @@ func init() {
 		Outside: "longer predicate / operation lists; operations with an empty oneof (C16); crash atomicity (C04: one Pebble batch, one commit)",
 		Assumptions: []string{"Pebble model M1 (indexed batch reads see earlier writes of the batch)", "predicate semantics as documented in docs/user_guide/transactions.md and the property statement"},
 	}
+	props["C13"] = &Property{
+		Title: "metadata store: deterministic compare-and-set register map",
+		Instances: func(tier string) []*Instance {
+			kv := "storage/kv"
+			n := int64(2)
+			if tier == "thorough" {
+				n = 3
+			}
+			return []*Instance{
+				{Pkg: kv, Func: "VH_C13_update", Args: []int64{n}, Unwind: 32},
+				{Pkg: kv, Func: "VH_C13_versions", Unwind: 32},
+				{Pkg: kv, Func: "VH_C13_glob", Args: []int64{n}, Unwind: 64},
+				{Pkg: kv, Func: "VH_C13_vacuity", Expect: "violated"},
+			}
+		},
+		Covers: map[string][]string{"VH_C13_update": {"end", "set-ok", "set-mismatch", "delete-ok", "delete-mismatch"}, "VH_C13_versions": {"end", "same-key"}, "VH_C13_glob": {"end"}},
+		Bounds: map[string]string{
+			"quick":    "store of 0..2 pairs (distinct arbitrary 1-byte keys, arbitrary values, arbitrary earlier versions), one update of each op with arbitrary key/value/version (stale, current, zero, future) at an arbitrary 64-bit log index; glob over 2 keys drawn from the 4 key shapes the callers use with an arbitrary path element",
+			"thorough": "3 pairs / 3 keys",
+		},
+		Outside: "snapshot/restore equality of the store (encoding/json of a map is reflection code: not encodable; the JSON model would make it vacuous) - declined; multi-byte path elements; List/ListDir (no caller)",
+		Assumptions: []string{
+			"M2: proposals are applied by the real LFSM.Update at consecutive, increasing log indices",
+			"M4: json.Marshal/Unmarshal of kv.Update and kv.Pair round-trip field by field",
+		},
+	}
+	props["C15"] = &Property{
+		Title: "at most one unexpired replication lease",
+		Instances: func(tier string) []*Instance {
+			tb := "storage/table"
+			return []*Instance{
+				{Pkg: tb, Func: "VH_C15_lease", Unwind: 32},
+				{Pkg: tb, Func: "VH_C15_return", Unwind: 32},
+				{Pkg: tb, Func: "VH_C15_vacuity", Expect: "violated"},
+			}
+		},
+		Covers: map[string][]string{"VH_C15_lease": {"end", "granted", "held", "third-node"}, "VH_C15_return": {"end", "foreign"}},
+		Bounds: map[string]string{
+			"quick":    "one lease call of node 1 from an arbitrary pre-existing record (absent / owner 1,2,3 / arbitrary expiry instant and version), with one arbitrary call (lease, renew, return, none) of node 2 between node 1's store read and store write and one more after; lease durations 10 s and -1 s; all clock readings symbolic, monotone, non-decreasing",
+			"thorough": "same (the step is inductive over the record; more calls add nothing new)",
+		},
+		Outside: "clock skew between nodes (one global monotone clock is assumed); the worker's cached 'leased' flag lagging a renewal behind; more than one interfering call inside a single read-write window",
+		Assumptions: []string{
+			"M2 with the real LFSM: store writes are compare-and-set on the version (C13)",
+			"M4: json round trip of table.Lease preserves ID and the instant",
+			"a lease is counted from the clock reading taken just before the call (earliest possible expiry), which is conservative for mutual exclusion",
+		},
+	}
 }
